@@ -34,7 +34,11 @@ fn main() {
     let corpus = rb_harness::corpus::candidate_texts();
     let mut cc = std::collections::BTreeMap::new();
     for t in &corpus {
-        *cc.entry(format!("{:?}", classify(t))).or_insert(0) += 1;
+        let c = classify(t);
+        if c == Class::Panic && std::env::var("SHOW_PANICS").is_ok() {
+            println!("==== corpus panic:\n{}", t);
+        }
+        *cc.entry(format!("{:?}", c)).or_insert(0) += 1;
     }
     println!("corpus candidates {} -> {:?}", corpus.len(), cc);
 }
